@@ -30,14 +30,14 @@ type wrapTier struct {
 
 func wrapTierFor(tier string) *wrapTier {
 	if tier == "thorough" {
-		return &wrapTier{alphabet: wAlphabet, maxLen: 4, maxRuns: 3, multiGlyph: true, secondary: true, secondaryMulti: true, pairwiseLen: 3, maxWidths: 0, name: "len<=4 over 9 symbols, <=3 runs, full secondary axes",
+		return &wrapTier{alphabet: wAlphabet, maxLen: 4, maxRuns: 3, multiGlyph: true, secondary: true, secondaryMulti: false, pairwiseLen: 3, maxWidths: 0, name: "len<=4 over 9 symbols, <=3 runs, secondary axes on single-glyph cluster structures (pairwise for len<=3)",
 			extra: &wrapTier{alphabet: []rune{'a', ' ', '\n', 0x05D0, 0x0301}, maxLen: 6, maxRuns: 2, multiGlyph: true, secondary: false, maxWidths: 12, name: "len 5..6 over 5 symbols, <=2 runs, primary axes"}}
 	}
 	return &wrapTier{alphabet: wAlphabet, maxLen: 3, maxRuns: 3, multiGlyph: true, secondary: true, pairwiseLen: 2, maxWidths: 0, name: "len<=3 over 9 symbols, <=3 runs, secondary axes on single-glyph cluster structures",
 		extra: &wrapTier{alphabet: []rune{'a', ' ', '\n', 0x05D0, 0x0301}, maxLen: 4, maxRuns: 2, multiGlyph: false, secondary: false, maxWidths: 10, name: "len 4 over 5 symbols, <=2 runs, primary axes"}}
 }
 
-const wrapShards = 64
+const wrapShards = 512 // many small shards: all workers advance through the length-lexicographic order together, so a deadline cuts at about the same text everywhere
 
 func wrapShardList(tier string) []string {
 	var s []string
@@ -306,9 +306,22 @@ func wrapRun(prop string, laws lawSet) func(tier, shard string, r *mc.Reporter) 
 		wt := wrapTierFor(tier)
 		e := &wrapEnv{r: r, laws: laws, prop: prop}
 		run := func(wt *wrapTier, minLen int) {
+			// consecutive blocks of the length-lexicographic order: completed shards form a prefix of it
+			total := 0
+			for l, p := minLen, 1; l <= wt.maxLen; l++ {
+				p = 1
+				for k := 0; k < l; k++ {
+					p *= len(wt.alphabet)
+				}
+				total += p
+			}
+			block := (total + wrapShards - 1) / wrapShards
 			enumTexts(wt.alphabet, minLen, wt.maxLen, func(idx int, t []rune) bool {
-				if idx%wrapShards != sh {
+				if idx/block < sh {
 					return true
+				}
+				if idx/block > sh {
+					return false
 				}
 				if r.Expired() {
 					r.Incomplete(fmt.Sprintf("deadline reached in tier part %q at text #%d %q", wt.name, idx, string(t)))
